@@ -63,7 +63,9 @@ fn emit_sequence(
     }
     out.push(json!("/ev"));
 
-    for (index, _) in sequence.branches.iter().enumerate() {
+    // One conditional jump per branch, the empty final branch of a once-only
+    // sequence included (it pops the duplicated index like the others).
+    for index in 0..branch_count {
         out.push(json!("ev"));
         out.push(json!("du"));
         out.push(json!(index as i32));
